@@ -162,8 +162,11 @@ func TestResourceShutdown(t *testing.T) {
 		var inDelete bool
 		inHook := false
 		var helpers sync.WaitGroup
+		writer := lib.GoID()
 		verifhook.Set(func(point string) {
-			if point == "bus.stop.begin" || inHook {
+			// only points reached by the writing goroutine count: helper goroutines opening subscriptions pass hook
+			// points too, concurrently with it
+			if point == "bus.stop.begin" || lib.GoID() != writer || inHook {
 				return
 			}
 			hits[point]++
